@@ -227,6 +227,7 @@ func c19(ctx *Ctx) {
 	// "results equal to some sequential order of the same calls": copies of one handshake
 	// presented to the replay history at the same instant must have exactly one winner
 	replayConcurrentWinners(ctx, "C19/not-linearizable:ReplayCache.Add")
+	snapshotsUnderMarks(ctx, "C19/not-linearizable:cipherList.SnapshotForClientIP")
 	scs := []string{"replay", "cipherlist", "listeners", "metrics"}
 	for k := range c19extra {
 		scs = append(scs, k)
